@@ -275,9 +275,15 @@ def main():
                 continue
             body = (good["layout_code"] + "print(RESULT)\nsys.exit(0 if RESULT['same'] else 1)\n") if sig == "layout-dependent-result" else (good["replay_code"] + "print(RESULT)\nsys.exit(1 if RESULT['bad'] else 0)\n")
             report.violations.append({"sig": sig, "what": what, "replay": checklib.write_replay(PID, what, body)})
+        # errors raised by the lexer in the middle of the parser's work: a stray character at every position of seven
+        # accepted programs, real lexer + real parser; the ParseError must name the character's own file:line:column
+        from checks import c18_chr
+
+        c18_chr.run_injection(report, findings, rp, pid=PID, locate=True)
+        report.functions |= {"pycparser/c_lexer.py:CLexer._error (sre model) -> pycparser/c_parser.py:CParser._lex_error_func/_parse_error"}
     finally:
         rp.close()
-    return report.finish(findings, required_witnesses=["ast", "ParseError"])
+    return report.finish(findings, required_witnesses=["ast", "ParseError", "injection-rejected"])
 
 
 def layout(toks):
@@ -349,8 +355,8 @@ try:
     bad += [[c, w] for c, w in coordrules.check(tree)]
     if "#pragma" not in text:
         def own(n):
-            f = {{"ID": "name", "Constant": "value", "Enumerator": "name", "Label": "name"}}.get(type(n).__name__)
-            if f and n.coord is not None and tok_of(n.coord) is not None:
+            f = {{"ID": "name", "Constant": "value", "Enumerator": "name", "Label": "name", "TypeDecl": "declname"}}.get(type(n).__name__)
+            if f and getattr(n, f) is not None and n.coord is not None and tok_of(n.coord) is not None:
                 k = tok_of(n.coord)
                 spelled = lines[2 * k + 1].strip() if 2 * k + 1 < len(lines) else ""
                 if not str(getattr(n, f)).startswith(spelled) and not spelled.startswith(str(getattr(n, f))[:1]):
